@@ -79,6 +79,17 @@ pub fn gen(tier: &str, seed: u64, idx: u64, base: u64) -> Spec {
     Spec { check: "C11".into(), world, slots, ops, db: DbCfg::default(), budget: 400_000, points: None, scheds: None, cap, params }
 }
 
+/// `Ref`'s verdict on an interrupted answer with definite guidance that the full answer does not back: Some(detail)
+/// iff the guidance excludes a solution the reference model proves (bounded universe), None otherwise / undecided.
+fn unbacked_guidance_excludes_solution(spec: &Spec, l: &Lowered, goal: usize, g: &G, sol: &Sol) -> Option<String> {
+    let (prog, goals) = wgen::parse_world(&spec.world).ok()?;
+    let ast = goals.get(goal)?.as_ref().ok()?;
+    match crate::refcheck::judge(&prog, ast, &l.p, g, sol, 40_000).0 {
+        crate::refcheck::Verdict::Contradiction { class, detail } if class == "definite-excludes-solution" => Some(detail),
+        _ => None,
+    }
+}
+
 fn strided(n: u64, cap: u64) -> Vec<u64> {
     if n <= cap {
         (1..=n).collect()
@@ -168,7 +179,17 @@ pub fn exec(spec: &Spec, r: &mut RunResult) {
             match &lim {
                 Out::Ans(ls) => {
                     if let Err(why) = cmp::safe_approximation(ls, &full_sol) {
-                        bad.push(("limited-contradicts-full".into(), format!("{}: limited `{}` vs full `{}`", why, fmt_sol(ls), fmt_sol(&full_sol))));
+                        if why.starts_with("UNBACKED:") {
+                            // definite guidance where the full answer has none (e.g. the recursive solver's `combine` gives
+                            // up on two different substitutions that an interruption happens to make equal): it is a
+                            // contradiction only if it excludes a solution — the reference model decides
+                            match unbacked_guidance_excludes_solution(spec, &l, prim.goal, &g0, ls) {
+                                Some(detail) => bad.push(("limited-contradicts-full".into(), format!("definite guidance of the interrupted solve excludes a solution ({}): limited `{}` vs full `{}`", detail, fmt_sol(ls), fmt_sol(&full_sol)))),
+                                None => r.bump("c11.definite_guidance_beyond_full_answer_not_refuted_by_ref", 1),
+                            }
+                        } else {
+                            bad.push(("limited-contradicts-full".into(), format!("{}: limited `{}` vs full `{}`", why, fmt_sol(ls), fmt_sol(&full_sol))));
+                        }
                     }
                     if ls.as_ref().map(|s| s.is_ambig()).unwrap_or(false) && *ls != full_sol {
                         r.bump("c11.weaker_ambiguous_answers", 1);
@@ -204,7 +225,17 @@ pub fn exec(spec: &Spec, r: &mut RunResult) {
                 if interrupting {
                     match (&out, &fresh) {
                         (Out::Ans(a), Out::Ans(f)) => {
-                            if let Err(why) = cmp::safe_approximation(a, f) {
+                            let approx = match cmp::safe_approximation(a, f) {
+                                Err(why) if why.starts_with("UNBACKED:") => match unbacked_guidance_excludes_solution(spec, &l, op.goal, &g, a) {
+                                    Some(detail) => Err(format!("definite guidance of the interrupted solve excludes a solution ({})", detail)),
+                                    None => {
+                                        r.bump("c11.definite_guidance_beyond_full_answer_not_refuted_by_ref", 1);
+                                        Ok(())
+                                    }
+                                },
+                                other => other,
+                            };
+                            if let Err(why) = approx {
                                 // control: the same history without any interruption; if it already gives this very
                                 // answer, the deviation is history dependence (C10's subject), not the interruption
                                 let control = {
